@@ -524,6 +524,13 @@ impl World {
             }
             Kind::Tlbsync => self.cpu.trace.push(Ev::Tlbsync),
             Kind::Lgdt { addr } | Kind::Lidt { addr } => {
+                // the operand may lie anywhere (an address-size prefix truncates the address): the
+                // CPU would raise #PF on an unmapped operand
+                if !readable(addr, 10) {
+                    self.cpu.fault(14, format!("descriptor-table pointer operand at {addr:#x} is not mapped"));
+                    ctx.set_rip(ctx.rip() + len as u64);
+                    return true;
+                }
                 let limit = (addr as *const u16).read_unaligned();
                 let base = ((addr + 2) as *const u64).read_unaligned();
                 if matches!(kind, Kind::Lgdt { .. }) {
@@ -645,6 +652,16 @@ impl World {
         ctx.set_rip(next);
         true
     }
+}
+
+/// Are `len` bytes at `addr` mapped?  (msync on the containing pages fails with ENOMEM otherwise.)
+pub fn readable(addr: u64, len: u64) -> bool {
+    let start = addr & !0xfff;
+    let end = (addr.wrapping_add(len).wrapping_add(0xfff)) & !0xfff;
+    if end <= start {
+        return false;
+    }
+    unsafe { libc::msync(start as *mut libc::c_void, (end - start) as usize, libc::MS_ASYNC) == 0 }
 }
 
 #[inline(never)]
